@@ -39,6 +39,13 @@ Emit ==
         \* path constraint x1 + x2 <= 9 imposed at every refined point; boundary constraints at t0 and tf
         path |-> Tup([j \in 1..Len(pts) |-> Sub(R(9), Add(val(0, pts[j]), val(1, pts[j])))]),
         bnd0 |-> Sub(val(0, Zero), Q(1, 2)), bndf |-> Sub(val(1, One), R(-1)),
+        \* grid='inf' constraints on two chain members (different numbers of coefficients, different constant terms):
+        \*   x1 + 1/2 <= 7    and    -6 <= x2 - 1/2 <= 3/2
+        \* a B-spline lies in the convex hull of its coefficients, so the bound on every coefficient of the member is the
+        \* certificate: one row (side) per coefficient
+        inf |-> [m0 |-> Tup([j \in 1..Len(mem(0)) |-> Sub(R(7), Add(mem(0)[j], Q(1, 2)))]),
+                 m1hi |-> Tup([j \in 1..Len(mem(1)) |-> Sub(Q(3, 2), Sub(mem(1)[j], Q(1, 2)))]),
+                 m1lo |-> Tup([j \in 1..Len(mem(1)) |-> Sub(Sub(mem(1)[j], Q(1, 2)), R(-6))])],
         greville |-> Tup([i \in 1..sc.N + d |-> Add(sc.t0, Mul(sc.T, Greville(xi, d)[i]))])]))
 Post == /\ ndJsonSerialize(IOEnv.OUT_FILE, TLCGet(1)) /\ PrintT(<<"emitted", Len(TLCGet(1))>>)
 ASSUME TLCSet(1, <<>>)
